@@ -142,6 +142,8 @@ def patch_items(name, mi, data, blk, func, isa="x64"):
                 expr = (int(xo), xs, int(xa), int(xw))
                 target = None
                 kind = "o"
+            elif kind in ("jmp", "jcc", "call") and isa == "arm64":
+                expr = (0, arg, 0, 4)
             elif kind in ("jmp", "jcc", "call"):
                 w = 1 if n == 2 else 4
                 expr = (n - w, arg, 0, w)
